@@ -27,6 +27,12 @@ def check(run):
     nowrite(run, p)
     extcase(run, p)
     defaults(run, p)
+    from .common import observed_rule
+    calc = p.cls('PandasConstraintCalculator')
+    n = observed_rule(run, 'C17-OBSERVED', p, list(calc.methods.values()),
+                      'constraints discovered from a file verify against that file: the calculator both sides share never reads a '
+                      'categorical column\'s declared levels (parquet keeps unused categories)')
+    run.floor('C17-OBSERVED', n, 15)
     from .c01 import datelang
     datelang(run, p)
     run.rules['C17-DATELANG'] = run.rules.pop('C01-DATELANG') + ' (the command line always goes through a .tdda file)'
